@@ -445,3 +445,27 @@ def dict2obj_constructs(prop="C16", replay=None):
         if replay:
             r.replay = replay()
     return [r]
+
+
+def one_bad_project_costs_only_its_own_links(prop="C16", replay=None):
+    """load_external_modules goes through all external projects of the settings: a project whose description cannot be read or used costs its own links and nothing else.  The loop
+    body contains no `return` / `break`, and the handlers of its two `try` statements neither re-raise nor leave the loop."""
+    import ast
+    from harness import loader
+    from harness.core import OR, PROVED, REFUTED, UNKNOWN
+    oid = f"{prop}.S.load_external_modules.every_external_project_is_tried"
+    fn = loader.find_def("ford.external_project", "load_external_modules")
+    loops = [n for n in fn.body if isinstance(n, ast.For) and "external" in ast.unparse(n.iter)]
+    if len(loops) != 1:
+        return [OR(id=oid, status=UNKNOWN, kind="S", target="ford.external_project.load_external_modules", detail=f"loop over the external projects: {len(loops)} matches")]
+    bad = [(n.lineno, type(n).__name__.lower()) for n in ast.walk(loops[0]) if isinstance(n, (ast.Return, ast.Break))]
+    bad += [(n.lineno, "raise") for t in ast.walk(loops[0]) if isinstance(t, ast.Try) for h in t.handlers for n in ast.walk(h) if isinstance(n, ast.Raise)]
+    # a nested loop's own `break` would be fine; there is none in the recognised code
+    r = OR(id=oid, status=REFUTED if bad else PROVED, kind="S", role="post", backend="ast", target="ford.external_project.load_external_modules",
+           desc="the loop over the external projects has no return / break, and its exception handlers do not raise: each project is tried whatever happened to the ones before it")
+    if bad:
+        r.witness = {"sites": bad}
+        r.detail = f"line {bad[0][0]}: a `{bad[0][1]}` ends the import at the first project that fails: the projects listed after it lose all their links"
+        if replay:
+            r.replay = replay()
+    return [r]
